@@ -54,6 +54,8 @@ pub fn run(ctx: &Ctx) -> Result<Ev, String> {
             let mut ev = Ev::new("C13");
             let core = if dev.flags.iter().any(|f| f == "Avr8l") { Core::Avr8l } else { Core::Full };
             let mut rng = par::rng_for(ctx.seed, "C13", di as u64);
+            let mut allowed_lines: Vec<(String, String)> = vec![];
+            let mut gated_lines: Vec<(String, String, String)> = vec![];
             for s in forms.iter() {
                 let first = (s.get)(0);
                 let is_ldsts = first.m == "lds" || first.m == "sts";
@@ -79,6 +81,7 @@ pub fn run(ctx: &Ctx) -> Result<Ev, String> {
                     let (chk, sig_head) = if rejected {
                         ev.nt(fp(&(&dev.name, &c.m, &ops)));
                         ev.class(&format!("gated:{}", isa::gate_reason(&dev.flags, &c.m, &ops)));
+                        gated_lines.push((line.clone(), c.m.clone(), isa::gate_reason(&dev.flags, &c.m, &ops)));
                         (Check::MustFail { src: src.clone(), token: None }, format!("c13:{}:{}{}", isa::gate_reason(&dev.flags, &c.m, &ops), c.m, if ops.is_empty() { ":bare" } else { "" }))
                     } else {
                         if is_ldsts && core == Core::Avr8l {
@@ -89,8 +92,20 @@ pub fn run(ctx: &Ctx) -> Result<Ev, String> {
                             Verdict::Legal(w) | Verdict::Either(w) => w,
                             Verdict::Illegal => continue,
                         };
-                        let bytes = words.iter().flat_map(|x| [(*x & 0xff) as u8, (*x >> 8) as u8]).collect();
-                        (Check::image_code(src.clone(), bytes), format!("c13:allowed:{}", c.m))
+                        // observed together with a label behind it: encoding *and* length must be those of
+                        // the no-device build (one-word lds/sts on reduced cores)
+                        let (line1, ops1) = render_line(&c, 1);
+                        let words = match isa::assemble(&c.m, &ops1, core, 1) {
+                            Verdict::Legal(w) | Verdict::Either(w) => w,
+                            Verdict::Illegal => words,
+                        };
+                        let mut bytes: Vec<u8> = vec![0, 0];
+                        bytes.extend(words.iter().flat_map(|x| [(*x & 0xff) as u8, (*x >> 8) as u8]));
+                        let after = 1 + words.len() as u16;
+                        bytes.extend_from_slice(&[0, 0, (after & 0xff) as u8, (after >> 8) as u8]);
+                        let src2 = format!(".device {}\nnop\n{}\nc13_after: nop\n.dw c13_after", dev.name, line1);
+                        allowed_lines.push((line.clone(), c.m.clone()));
+                        (Check::image_code(src2, bytes), format!("c13:allowed:{}", c.m))
                     };
                     if di % 9 == 0 && i == 0 && ev.samples.len() < 3 && rejected {
                         ev.samples.push(json!({"src": src, "flags": dev.flags, "expect": "rejected"}));
@@ -99,6 +114,76 @@ pub fn run(ctx: &Ctx) -> Result<Ev, String> {
                         let outcome = if rejected { "notgated" } else if e.contains("Err(") { "rejected" } else { "changed" };
                         ev.violation(Violation { sig: format!("{}:{}", sig_head, outcome), what: format!("`{}` flags {:?}: {}", src.replace('\n', " | "), dev.flags, e), replay: chk.to_json() });
                     }
+                }
+            }
+            // convention-dependent spellings (`ld r,Y+q`, `ldd r,Y`, …): whatever the assembler does with
+            // them on a full device, a device lacking the pointer register must reject them
+            {
+                use crate::isa::{Opd, PMode, Ptr};
+                let mut extra: Vec<(&str, Vec<Opd>)> = vec![];
+                for p in [Ptr::X, Ptr::Y, Ptr::Z] {
+                    for q in [0i64, 1, 63] {
+                        extra.push(("ld", vec![Opd::R(0), Opd::Q(p, q)]));
+                        extra.push(("st", vec![Opd::Q(p, q), Opd::R(31)]));
+                    }
+                    for mo in [PMode::Plain, PMode::PostInc, PMode::PreDec] {
+                        extra.push(("ldd", vec![Opd::R(5), Opd::P(p, mo)]));
+                        extra.push(("std", vec![Opd::P(p, mo), Opd::R(5)]));
+                    }
+                }
+                for (m, ops) in extra {
+                    let line = format!("{} {}", m, ops.iter().map(|o| o.to_string()).collect::<Vec<_>>().join(", "));
+                    let src = format!(".device {}\n{}", dev.name, line);
+                    ev.eval();
+                    let chk = if isa::gate(&dev.flags, m, &ops) {
+                        ev.class("convention-spelling:gated");
+                        ev.nt(fp(&src));
+                        Check::MustFail { src: src.clone(), token: None }
+                    } else {
+                        ev.class("convention-spelling:available");
+                        match isa::assemble(m, &ops, core, 0) {
+                            Verdict::Legal(w) | Verdict::Either(w) => Check::FailOrImage { src: src.clone(), code: w.iter().flat_map(|x| [(*x & 0xff) as u8, (*x >> 8) as u8]).collect() },
+                            Verdict::Illegal => Check::MustFail { src: src.clone(), token: None },
+                        }
+                    };
+                    if let Err(e) = chk.eval() {
+                        ev.violation(Violation { sig: format!("c13:{}:{}:convention-spelling", isa::gate_reason(&dev.flags, m, &ops), m), what: format!("`{}` on {}: {}", line, dev.name, e), replay: chk.to_json() });
+                    }
+                }
+            }
+            // sequences: a missing form must also be rejected after any number of available ones
+            // (in particular after available forms of the same mnemonic), and in front of them
+            let rel_free: Vec<&(String, String)> = allowed_lines.iter().filter(|(l, _)| !l.contains("pc")).collect();
+            let all_allowed: String = rel_free.iter().map(|(l, _)| format!("{}\n", l)).collect();
+            let mut seen = std::collections::BTreeSet::new();
+            for (gl, gm, reason) in &gated_lines {
+                if gl.contains("pc") || !seen.insert((gm.clone(), gl.split(',').last().unwrap_or("").trim().to_string())) {
+                    continue;
+                }
+                let same: String = rel_free.iter().filter(|(_, m)| m == gm).map(|(l, _)| format!("{}\n", l)).collect();
+                for (variant, src) in [
+                    ("after-all-available-forms", format!(".device {}\n{}{}\n", dev.name, all_allowed, gl)),
+                    ("after-available-forms-of-same-mnemonic", format!(".device {}\n{}{}\nnop\n", dev.name, same, gl)),
+                    ("before-available-forms", format!(".device {}\n{}\n{}", dev.name, gl, all_allowed)),
+                    ("in-second-code-segment", format!(".device {}\n{}.dseg\n.cseg\n.org 0x100\n{}{}\n", dev.name, same, same, gl)),
+                ] {
+                    ev.eval();
+                    ev.class(&format!("sequence:{}", variant));
+                    ev.nt(fp(&src));
+                    let chk = Check::MustFail { src: src.clone(), token: None };
+                    if let Err(e) = chk.eval() {
+                        ev.violation(Violation { sig: format!("c13:{}:{}:sequence:notgated", reason, gm), what: format!("[{}] `{}` on {}: {}", variant, gl, dev.name, e), replay: chk.to_json() });
+                    }
+                }
+            }
+            // and all available forms together build
+            {
+                ev.eval();
+                ev.class("sequence:all-available-forms-build");
+                let src = format!(".device {}\n{}", dev.name, all_allowed);
+                let chk = Check::MustBuild { src: src.clone() };
+                if let Err(e) = chk.eval() {
+                    ev.violation(Violation { sig: "c13:allowed:sequence:rejected".into(), what: format!("all available forms of {} in one program: {}", dev.name, e), replay: chk.to_json() });
                 }
             }
             ev
